@@ -8,10 +8,10 @@
    for C20 is PARTIAL by construction.
 
    [fx] selects the code variant: false = /repo as it is, true = with
-   dev/patches/D11 applied.  Where a statement needs a side condition for the
+   dev/patches/D19_C20_unclosed_on_failure.patch applied.  Where a statement needs a side condition for the
    unpatched code, the full statement is refuted for it by a witness
    (theorems *_refuted): that witness, replayed on the implementation, is
-   defect D11. *)
+   defect D19. *)
 From Coq Require Import List Bool Arith.
 Import ListNotations.
 From NpTdms Require Import Model.Resource Proofs.ResourceProofs.
@@ -54,7 +54,7 @@ Proof. exact sc_closed_history_no_owned. Qed.
 
 (* TdmsFile.open raising (the caller gets no object to close).
    Patched code: nothing owned stays open.  Code as it is: refuted - the data
-   file opened by path is left to the garbage collector (D11); this happens
+   file opened by path is left to the garbage collector (D19); this happens
    for path sources only. *)
 Theorem no_owned_handle_after_open_raises_patched : forall src index_beside cf fc,
     fst (tf_init true ApiOpen src index_beside cf fc) <> Done ->
@@ -121,7 +121,7 @@ Proof. exact reader_close_idem. Qed.
    the block, or because __enter__ raised - nothing the library opened is
    open, nothing was left to the finaliser, no caller stream is closed.
    Side condition for the code as it is: the open() of the index file does
-   not fail after the data file was opened (refuted below, D11). *)
+   not fail after the data file was opened (refuted below, D19). *)
 Theorem writer_with_block_closes : forall fx t ops wf b,
     Forall (wop_fault_free fx) ops -> wfault_free fx wf ->
     let s' := snd (w_with fx wf b (w_run fx (w_init t) ops)) in
